@@ -11,7 +11,7 @@ from common import Driver, DriverFailure, hx
 LEVEL = "proof"
 MANIFEST = dict(
     text="Lean 4 theorems for every item satisfying the decidable Item.WF (all shipped items except the 3 of finding D9, by C18's whole-table evaluation), every 1024-byte block and every domain value: write-then-read returns the value (read_after_write + per-kind corollaries), only bits of the item's own field change (write_touches_only_own_field), items with a disjoint field keep their value (other_items_unchanged), read-only items refuse, string forms, and the blocking/awaitable paths emit identical writes. The shift/mask/merge arithmetic is translated from accessor.py on every run; type dispatch / labels / time format are a hand model tied by a differential correspondence on the real accessors (thorough: all 20 505 items)."
-         ' Since session 3: adversarial prior contents for bit fields (the whole field equals the integer about to be merged in, and its complement) and a no-write oracle. Session 4: every stored word of a window (0..1099 plus a seeded sample of the rest) of the writable temperature items of two shipped pairs is presented in both units and written back through the blocking and the awaitable path: the device write must carry that word. Items whose labels are unusual as text (blank, padded, case twins, numeric-looking) are always chosen; an error on an in-domain write to a writable item is a violation.',
+         ' Since session 3: adversarial prior contents for bit fields (the whole field equals the integer about to be merged in, and its complement) and a no-write oracle. Session 4: every stored word of a window (0..1099 plus a seeded sample of the rest) of the writable temperature items of two shipped pairs is presented in both units and written back through the blocking and the awaitable path: the device write must carry that word. Items whose labels are unusual as text (blank, padded, case twins, numeric-looking) are always chosen; an error on an in-domain write to a writable item is a violation. Session 5: write_paths_are_the_same_code (the awaitable write methods of an item and of the structure, with their one await turned into a call, ARE the blocking ones, as skeletons regenerated from the source), write_paths_keep_no_state, every_write_is_handed_over; histories of writes on one long-lived structure whose hand-off fails or is cancelled, then the same write again (twice), two under way together: every call emits the blocking path\'s write.',
     note="Trusted: Lean kernel; translator for the three arithmetic expressions; the correspondence harness; 'applied to the block' = the spa stores struct.pack of the value at pos (as the bundled simulator does). Temperature items' unit conversion is C14.",
     technique='Lean 4 bit-level proofs (Nat.testBit) over source-translated merge arithmetic + differential correspondence of the hand model on all shipped items',
     design='5/C02',
@@ -45,6 +45,181 @@ class Impl:
         self.a = GeckoAsyncStructure(lambda p, l, v: None, acap)
         self.aacc = cls(self.a).accessors
         self.a.accessors = self.aacc
+
+
+class _Suspend:
+    """an awaitable that suspends its caller once (driven by hand: no event loop is needed)"""
+
+    def __await__(self):
+        yield self
+
+
+class HistImpl:
+    """one real GeckoAsyncStructure + accessors whose device hand-off can fail: it records the write, then completes / raises /
+    suspends (the caller then cancels it, or lets it finish later) - what a protocol layer does when the spa is silent"""
+
+    def __init__(self, file):
+        from geckolib.driver.spastruct import GeckoStructure
+        from geckolib.driver.async_spastruct import GeckoAsyncStructure
+        m = importlib.import_module("geckolib.driver.packs." + file)
+        cls = getattr(m, "GeckoConfigStruct", None) or getattr(m, "GeckoLogStruct")
+        self.captured, self.acaptured = [], []
+        self.mode = "ok"
+        self.s = GeckoStructure(lambda p, l, v: self.captured.append((p, l, v)))
+        self.acc = cls(self.s).accessors
+        self.s.accessors = self.acc
+
+        async def handoff(p, l, v):
+            self.acaptured.append((p, l, v))
+            if self.mode == "raise":
+                raise OSError("link down")
+            if self.mode == "suspend":
+                await _Suspend()
+        self.a = GeckoAsyncStructure(lambda p, l, v: None, handoff)
+        self.aacc = cls(self.a).accessors
+        self.a.accessors = self.aacc
+
+
+def write_histories(ctx, rng, chosen, illformed):
+    """the awaitable path over a HISTORY of writes on one long-lived structure: an attempt that fails in the hand-off (raises, or is
+    cancelled while it waits for the spa), the same write again, the same write once more, two of them under way together - every
+    call emits exactly the write the blocking path emits for the same input, whatever happened to earlier calls"""
+    import asyncio
+    impls = {}
+    n = 0
+    picks = [(m, it) for m, it in chosen if it["rw"] is not None and it["kind"] != "temp" and it["pos"] + it["len"] <= 1024 and (m["file"], it["key"]) not in illformed]
+    rng.shuffle(picks)
+    seen_kinds = {}
+    todo = []
+    for m, it in picks:
+        k = (it["kind"], it["bitpos"] is None)
+        if seen_kinds.get(k, 0) < (3 if ctx.quick else 12):
+            seen_kinds[k] = seen_kinds.get(k, 0) + 1
+            todo.append((m, it))
+    block = bytes(rng.randrange(256) for _ in range(1024))
+    for m, it in todo:
+        f, tag = m["file"], it["key"]
+        if f not in impls:
+            try:
+                impls[f] = HistImpl(f)
+            except Exception as e:  # noqa
+                ctx.violation(f"import:{f}", {"module": f}, "module builds its accessors", f"{type(e).__name__}: {e}")
+                continue
+        h = impls[f]
+        vals = [v for v in values_for(it, rng, True) if in_domain_of(it, v)][:2]
+        for v in vals:
+            h.s.set_status_block(block)
+            h.a.set_status_block(block)
+            h.captured.clear()
+            try:
+                h.acc[tag].value = v
+            except Exception:  # noqa - refusals are the main section's subject
+                continue
+            ref = list(h.captured)
+            if not ref:
+                continue
+            trace = []
+            for step in rng.choice([["raise", "ok", "ok"], ["cancel", "ok", "ok"], ["ok", "ok"], ["overlap", "ok"], ["cancel", "overlap"], ["raise", "cancel", "ok"]]):
+                h.acaptured.clear()
+                out = None
+                try:
+                    if step == "ok":
+                        h.mode = "ok"
+                        run_coro(h.aacc[tag].async_set_value(v))
+                        want = ref
+                    elif step == "raise":
+                        h.mode = "raise"
+                        try:
+                            run_coro(h.aacc[tag].async_set_value(v))
+                            out = "no error reached the caller"
+                        except OSError:
+                            pass
+                        want = ref
+                    elif step == "cancel":
+                        h.mode = "suspend"
+                        c = h.aacc[tag].async_set_value(v)
+                        c.send(None)                       # suspended inside the hand-off, waiting for the spa
+                        try:
+                            c.throw(asyncio.CancelledError())
+                            out = "cancellation swallowed"
+                        except asyncio.CancelledError:
+                            pass
+                        except StopIteration:
+                            out = "cancellation swallowed"
+                        want = ref
+                    else:
+                        h.mode = "suspend"
+                        c1, c2 = h.aacc[tag].async_set_value(v), h.aacc[tag].async_set_value(v)
+                        for c in (c1, c2):
+                            try:
+                                c.send(None)
+                            except StopIteration:
+                                pass
+                        for c in (c1, c2):
+                            try:
+                                c.send(None)
+                            except StopIteration:
+                                pass
+                        want = ref + ref
+                except Exception as e:  # noqa
+                    out = f"{type(e).__name__}: {e}"
+                h.mode = "ok"
+                got = list(h.acaptured)
+                trace.append(step)
+                n += 1
+                ctx.hist("write_history_steps", step)
+                if out is not None or got != want:
+                    ctx.violation(f"paths-history:{it['kind']}:{step}", {"kind": "write-history", "module": f, "tag": tag, "value": repr(v), "block_hex": block.hex(), "steps": list(trace)},
+                                  {"awaitable path emits": want}, {"awaitable path emitted": got, "note": out})
+                    break
+    ctx.cov["write_history_steps"] = n
+    ctx.count("evaluations", n)
+
+
+def replay_write_history(inp):
+    import ast as _ast
+    import asyncio
+    h = HistImpl(inp["module"])
+    block = bytes.fromhex(inp["block_hex"])
+    v = _ast.literal_eval(inp["value"])
+    tag = inp["tag"]
+    h.s.set_status_block(block)
+    h.a.set_status_block(block)
+    h.acc[tag].value = v
+    ref = list(h.captured)
+    got = want = None
+    for step in inp["steps"]:
+        h.acaptured.clear()
+        want = ref
+        if step == "ok":
+            h.mode = "ok"
+            run_coro(h.aacc[tag].async_set_value(v))
+        elif step == "raise":
+            h.mode = "raise"
+            try:
+                run_coro(h.aacc[tag].async_set_value(v))
+            except OSError:
+                pass
+        elif step == "cancel":
+            h.mode = "suspend"
+            c = h.aacc[tag].async_set_value(v)
+            c.send(None)
+            try:
+                c.throw(asyncio.CancelledError())
+            except (asyncio.CancelledError, StopIteration):
+                pass
+        else:
+            h.mode = "suspend"
+            cs = [h.aacc[tag].async_set_value(v), h.aacc[tag].async_set_value(v)]
+            for _ in range(2):
+                for c in cs:
+                    try:
+                        c.send(None)
+                    except StopIteration:
+                        pass
+            want = ref + ref
+        got = list(h.acaptured)
+    return got != want, {"emitted": got, "blocking path": want}
 
 
 def canon_err(e):
@@ -392,6 +567,10 @@ def run(ctx):
     # ---------- temperature items: write what the item presents, in both units, on both paths (the conversion itself is C14's
     #            subject; here only the property's own clause: a value from the item's domain reads back the same) ----------
     temp_roundtrips(ctx)
+    try:
+        write_histories(ctx, rng, chosen, illformed)
+    except Exception as e:  # noqa
+        ctx.obligation_broken("harness:write-histories", f"{type(e).__name__}: {e}")
     # ---------- correspondence: the Lean model must predict every answer ----------
     try:
         model = Driver("Driver/C02.lean").run(lines)
@@ -425,6 +604,8 @@ def run(ctx):
 
 
 def replay(inp):
+    if inp.get("kind") == "write-history":
+        return replay_write_history(inp)
     if inp.get("kind") == "temp":
         from common import Ctx
         c = Ctx("C02", "quick", 0)
